@@ -44,6 +44,19 @@ Theorem C17_cookie_format_fixed_point : forall c : cookie, wf_cookie c ->
   option_map cookie_bytes (cookie_parse (cookie_bytes c)) = Some (cookie_bytes c).
 Proof. intros c W. rewrite (cookie_roundtrip c W). reflexivity. Qed.
 
+(* Each hypothesis of wf_cookie on the value is needed: AppendBytes writes the value as it is, and the reader takes a
+   pair of double quotes around it for quoting, a ';' for the end of the value and a space at either end for
+   padding.  Witnesses of the known finding `unescaped-cookie-text` of C17, replayed on the code by unit c17.cookie
+   (values "\"q\"", "a;b", " x"). *)
+Definition ck_with_value (v : bs) : cookie :=
+  {| ck_key := B "k"; ck_value := v; ck_maxage := Z0; ck_expire := []; ck_domain := []; ck_path := [];
+     ck_httponly := false; ck_secure := false; ck_samesite := 0; ck_partitioned := false |}.
+Theorem C17_cookie_roundtrip_unescaped_value_refuted :
+  Forall (fun v => cookie_parse (cookie_bytes (ck_with_value v)) <> Some (ck_with_value v))
+         [[x22; x71; x22]; B "a;b"; B " x"].
+Proof. repeat constructor; vm_compute; discriminate. Qed.
+Print Assumptions C17_cookie_roundtrip_unescaped_value_refuted.
+
 Example C17_cookie_nonvacuous :
   cookie_parse_script [B "sid=a b; Max-Age=60; path=/x; HTTPONLY; SameSite=lax; junk"] =
   B "OK k=736964 v=612062 ma=60 ex= d= p=2f78 h=1 s=0 ss=2 pt=0 | " ++
